@@ -3,7 +3,7 @@
    array sizes), and the witnesses that show the side conditions are tight. *)
 From Coq Require Import ZArith List Bool Arith Lia.
 From LZ4V Require Import Gen.Consts Gen.TPoolSites Model.WriteReg Model.TPool Model.Pipeline
-  Proofs.TPoolProofs Proofs.DecodeRingProofs Proofs.CompressProofs.
+  Proofs.TPoolProofs Proofs.DecodeRingProofs Proofs.CompressProofs Proofs.NeverFullProofs.
 Import ListNotations.
 
 (* ---- the generated layer is consistent with what the models assume *)
@@ -126,4 +126,31 @@ Proof.
   split.
   - eapply comp_prefix; eassumption.
   - intros F. eapply comp_final; eassumption.
+Qed.
+
+(* ---- tPool queue depth of the compression call sites is >= 2: nobody ever blocks in TPool_submitJob(tPool) *)
+Theorem never_full_legacy : forall N nfull last sched st, 1 <= N ->
+  run (cl_cfg N nfull last) (init_state (cl_cfg N nfull last)) sched = Some st ->
+  length (queued (s_pt st)) <= 2 /\ q_len (s_pt st) <= 2 /\ (forall t, In t (push_w (s_pt st)) -> t = 0) /\
+  (In 0 (push_w (s_pw st)) -> queued (s_pt st) = [] /\ n_busy (s_pt st) = 0).
+Proof.
+  intros N nfull last sched st HN H.
+  assert (C1 : is_comp (cl_cfg N nfull last)) by (left; reflexivity).
+  assert (D1 : 2 <= c_tdepth (cl_cfg N nfull last)) by (vm_compute; lia).
+  assert (D2 : 1 <= c_wdepth (cl_cfg N nfull last)) by (vm_compute; lia).
+  destruct (never_full _ C1 HN D1 D2 sched st H) as (A&B&C0).
+  repeat split; try assumption; eapply (waiters_homogeneous _ C1 HN D1 D2 sched st H); assumption.
+Qed.
+
+Theorem never_full_lz4f : forall N nfull last sched st, 1 <= N -> 1 <= nfull ->
+  run (cf_cfg N nfull last) (init_state (cf_cfg N nfull last)) sched = Some st ->
+  length (queued (s_pt st)) <= 2 /\ q_len (s_pt st) <= 2 /\ (forall t, In t (push_w (s_pt st)) -> t = 0) /\
+  (In 0 (push_w (s_pw st)) -> queued (s_pt st) = [] /\ n_busy (s_pt st) = 0).
+Proof.
+  intros N nfull last sched st HN Hn H.
+  assert (C1 : is_comp (cf_cfg N nfull last)) by (right; split; [reflexivity|exact Hn]).
+  assert (D1 : 2 <= c_tdepth (cf_cfg N nfull last)) by (vm_compute; lia).
+  assert (D2 : 1 <= c_wdepth (cf_cfg N nfull last)) by (vm_compute; lia).
+  destruct (never_full _ C1 HN D1 D2 sched st H) as (A&B&C0).
+  repeat split; try assumption; eapply (waiters_homogeneous _ C1 HN D1 D2 sched st H); assumption.
 Qed.
